@@ -45,11 +45,11 @@ EXTRA = {
  "C01": "; ladder universes beyond the small scope (DESIGN 3.2); chains in which a is the live result of an earlier Patch, two hops; near-number arrays under Precision(0.1)",
  "C02": "; wide-context and strict-then-merge shapes; CLI leg: `jd a b` equals the library rendering, `jd -p` of it gives b, also with -o over a stale file",
  "C03": "; complete triples over ulp-neighbour and look-alike-string arrays; hand-written hunks with 0-3 context lines per side; reordered hunks; strict hunks as text followed by a merge hunk",
- "C04": "; alias values in long lists / wide objects; both orders of Precision with the set options; duplicate / null / missing / look-alike ids under SetKeys",
+ "C04": "; alias values in long lists / wide objects; both orders of Precision with the set options; duplicate / null / missing / look-alike ids under SetKeys; operands that are live results of Patch (9 constructions) under every option set",
  "C05": "; operands that are live results of Patch built under each reading; loose keyed arrays; CLI legs with invalid UTF-8 and YAML files",
- "C06": "; live operands; Precision legs; lists of 1 100 elements; every object over four keys inside a list",
- "C07": "; documents diffed against themselves; merge mode with nulls in a",
- "C08": "; bags of 33-75 members; complete triples over hash-aliasing members; hand-written set / multiset hunks with a value on both sides",
+ "C06": "; live operands (a, b or both; built at the array level, by replacement, through array positions and keyed members); no wholesale replacement of same-kind containers below keys; Precision legs; lists of 1 100 elements; every object over four keys inside a list",
+ "C07": "; documents diffed against themselves; merge mode with nulls in a; live operands (a, b or both) under each reading",
+ "C08": "; bags of 33-75 members; complete triples over hash-aliasing members; hand-written set / multiset hunks with a value on both sides; hand-written keyed-member hunks (one or two naming keys, null key values, members lacking a key)",
  "C09": "; keys that collide with nested paths when printed; the refusal clause read literally",
  "C10": "; displaced context tests; patch text with other text around it; pointer spellings (no leading '/', leading zeros, signs)",
  "C11": "; CLI leg (-f merge with -o, -color, -set, -yaml)",
